@@ -694,3 +694,74 @@ def rule_bounded_queue_nowait(ctx, rule, prefixes, label):
     rep.add(rule, '%s / queues fed without waiting are unbounded' % label, None, not bad,
             '%d queue attributes: none that is fed with put_nowait() has a fixed positive bound' % n_q if not bad else
             '%d put_nowait() sites on bounded queues' % len(bad))
+
+
+def rule_builders_fresh(ctx, rule):
+    """Frames are queued as objects and serialised by the sender task later, so every frame a builder hands out must
+    be an object of its own: each function of rsocket.frame_builders returns an object it constructed in that call
+    (a frame class constructor, or another builder's result) - not a module-level or cached frame that the next call
+    re-stamps while the first one still waits in the send queue."""
+    import ast as _ast
+    from ..astutil import returned_exprs
+    from ..index import walk_local
+    from .c19 import _creates_instance
+    rep = ctx.report
+    repo = ctx.repo
+    m = repo.module('rsocket.frame_builders')
+    if m is None:
+        raise AnalysisError('%s: rsocket.frame_builders vanished' % rule)
+    n = 0
+    for name, lst in sorted(m.functions.items()):
+        f = lst[-1]
+        rets = list(returned_exprs(f.node))
+        if not rets:
+            continue
+        n += 1
+        ok, why = True, ''
+        memo = [d for d in f.node.decorator_list if 'cache' in _ast.unparse(d)]
+        if memo:
+            ok, why = False, 'the builder is memoised (@%s): equal arguments give the same frame object' % \
+                _ast.unparse(memo[0])
+        for r in rets:
+            e = r
+            if isinstance(e, _ast.Name):
+                assigned = [a.value for a in walk_local(f.node) if isinstance(a, _ast.Assign) and
+                            any(isinstance(t, _ast.Name) and t.id == e.id for t in a.targets)]
+                if len(assigned) != 1:
+                    if not assigned:
+                        ok, why = False, '%s is not built in this call' % e.id
+                    else:
+                        bad = [a for a in assigned if not _creates_instance(repo, m, f, a)[0]]
+                        if bad:
+                            ok, why = False, '%s can be %s, which is not built in this call' % (e.id, _ast.unparse(bad[0]))
+                    continue
+                e = assigned[0]
+            good, reason = _creates_instance(repo, m, f, e)
+            if not good:
+                ok, why = False, ('returns %s: %s - frames wait in the send queue as objects, so a frame shared '
+                                  'between calls goes out with the fields of the last call' % (_ast.unparse(e), reason))
+        rep.add(rule, 'frame builder %s / a frame object of its own per call' % name, f, ok,
+                why or 'the returned frame is constructed in the call')
+    rep.require(rule, 'frame builders', n, 8)
+
+    # ... and nobody queues a frame it keeps: the argument of the queueing functions is never an attribute
+    n_sites = 0
+    for f in repo.all_functions():
+        if not f.module.name.startswith('rsocket.') or f.module.name.startswith('rsocket.cli'):
+            continue
+        for c in walk_local(f.node):
+            if isinstance(c, _ast.Call) and isinstance(c.func, _ast.Attribute) and c.func.attr in (
+                    'send_frame', 'send_request', 'send_priority_frame') and c.args and not (
+                    isinstance(c.func.value, _ast.Name) and c.func.value.id in ('transport', 'self') and
+                    f.name == 'send_frame' and False):
+                if 'transport' in _ast.unparse(c.func.value).lower():
+                    continue  # the transport's write, not the queue
+                n_sites += 1
+                a = c.args[0]
+                if isinstance(a, _ast.Attribute) and isinstance(a.value, _ast.Name) and a.value.id == 'self':
+                    rep.bad(rule, '%s / queues a frame it keeps' % f.qualname.split(':')[-1], f,
+                            '%s(self.%s): the same frame object is queued by every call and re-stamped while an '
+                            'earlier entry still waits in the send queue' % (c.func.attr, a.attr))
+    rep.require(rule, 'frame queueing call sites', n_sites, 15)
+    rep.ok(rule, 'queueing call sites / no frame kept in an attribute is queued', m.functions['to_cancel_frame'][-1],
+           '%d call sites of send_frame / send_request / send_priority_frame' % n_sites)
